@@ -414,7 +414,8 @@ class Ctx(object):
                 bad.append((pid, desc, pr))
                 continue
             bad.append((pid, desc, pr))
-        if not r.unwind_ok:
+        real = [(a, b, pr) for a, b, pr in bad if '.unwind.' not in a and 'recursion' not in a]
+        if not r.unwind_ok and not real:
             # either the bound is too small or the loop does not terminate:
             # the replay decides (a run that hangs confirms non-termination)
             r.status = 'unwind-fail'
@@ -426,6 +427,8 @@ class Ctx(object):
                     r.inputs = self.trace_inputs(ob, pr['trace'])
                     break
             return
+        if real:
+            bad = real
         if bad:
             r.status = 'violated'
             r.failed_props = [(a, b) for a, b, _ in bad]
@@ -469,7 +472,8 @@ class Ctx(object):
     def replay(self, ob, r):
         """re-run the solver's input against the real code built by gcc (or
         clang+ASan for memory safety) through the same harness source"""
-        rdir = os.path.join(VERIF, 'evidence', 'replay', self.prop)
+        rdir = os.path.join('/tmp/verif-evidence-scratch' if os.environ.get('VERIF_NO_EVIDENCE') else
+                            os.path.join(VERIF, 'evidence'), 'replay', self.prop)
         os.makedirs(rdir, exist_ok=True)
         tag = re.sub(r'[^\w.-]', '_', ob.name)[:80]
         path = os.path.join(rdir, tag + '.replay')
@@ -653,7 +657,11 @@ def conclude(ctx, obs, level_note, assumptions, stubs, rule, pre_info, extra_cov
         whole = ob.kfwhole if ob.kfwhole in ctx.known else None
         if r.status == 'unwind-fail':
             replayed += 1
-            if 'REPLAY-TIMEOUT' in (r.replay_out or ''):
+            if 'AddressSanitizer' in (r.replay_out or '') or 'runtime error:' in (r.replay_out or ''):
+                r.status = 'violated'
+                r.replay = 'confirmed'
+                r.failed_props = [(a, 'memory error while the loop ran on: ' + b) for a, b in r.failed_props]
+            elif 'REPLAY-TIMEOUT' in (r.replay_out or ''):
                 # the real code does not terminate on the solver's input
                 r.status = 'violated'
                 r.replay = 'confirmed'
@@ -785,8 +793,11 @@ def write_evidence(ctx, obs, level_note, assumptions, stubs, rule, pre_info, ext
         'wall_s': round(time.time() - ctx.t0, 1),
         'violations': violations,
     }
-    os.makedirs(os.path.join(VERIF, 'evidence'), exist_ok=True)
-    p = os.path.join(VERIF, 'evidence', ctx.prop + '.json')
+    evdir = os.path.join(VERIF, 'evidence')
+    if os.environ.get('VERIF_NO_EVIDENCE'):
+        evdir = os.path.join('/tmp', 'verif-evidence-scratch')
+    os.makedirs(evdir, exist_ok=True)
+    p = os.path.join(evdir, ctx.prop + '.json')
     with open(p + '.tmp', 'w') as fh:
         json.dump(ev, fh, indent=1, sort_keys=True)
     os.rename(p + '.tmp', p)
